@@ -40,8 +40,8 @@ LEVEL_NOTE = ("HEADLINE THEOREM C05_heap_inv_tables: in every reachable state (a
               "that was written' - there is NO theorem relating the spec decoder's tree to the written values (the pointer "
               "structure is C05_heap_inv_tables / C04_read_slot, data values are C04's read-back; their composition into a tree "
               "equality is not stated); (2) the segment table / framing written by Marshal: not a C05 theorem - C14 proves "
-              "C14_encode_is_marshal and C14_unmarshal_roundtrip for segment lists and C04_marshal_roundtrip_states composes them "
-              "with builder states for the unpacked paths; Marshal's own segment loading (message.go) is not modelled; (3) data "
+              "C14_encode_is_marshal and C14_unmarshal_roundtrip for segment lists and C04_marshal_roundtrip_states / "
+              "C04_all_paths_states compose them with builder states; Marshal's own segment loading (message.go) is not modelled; (3) data "
               "setters on source handles followed by copies; (4) arenas without a root word (valid_message itself requires the "
               "root word); (5) the message after a failed pointer setter / constructor (the run ends there).")
 DESIGN_REF = "DESIGN.md section 6, C05"
